@@ -124,7 +124,10 @@ def merge_shape(ctx, res, rule):
         if n.get("k") == "assign_op" and T.local_of(n["l"]) in cursors:
             adv += 1
             inner = [p for p in parents if p.get("k") in ("loop", "for")]
-            if inner:
+            if not (n["op"].startswith("+") and T.lit_value(n["r"]) == 1):
+                res.add(Finding(rule, fn, "advance-by-one:" + T.render(n), "the pending cursor does not advance by exactly one per examined pending "
+                                "range (`%s`): a pending range is skipped (missing from the full listing) or examined twice" % T.render(n), loc=T.loc(n)))
+            elif inner:
                 res.holds(rule, fn, "advance-in-inner-loop:" + T.render(n))
             else:
                 res.add(Finding(rule, fn, "advance-in-inner-loop:" + T.render(n),
@@ -200,6 +203,9 @@ def merge_shape(ctx, res, rule):
                     rootl = T.peel_ref(rootl["recv"])
                 if okchain and T.local_of(rootl) in iters and tags == [False]:
                     tail_ok = True
+            if not inside and any((".iter().skip(%s)" % lets[c]["pat"]["name"]) in r for c in cursors) and "false" in r and ".filter(" not in r and ".take(" not in r \
+                    and not [p for p in parents if p.get("k") == "if"]:
+                tail_ok = True        # ranges_pending.iter().skip(cursor): the same tail as ranges_pending[cursor..]
             if not inside and any(("[%s.." % lets[c]["pat"]["name"]) in r for c in cursors) and "false" in r:
                 # unconditional, or guarded only by "something is left"
                 guards = [p for p in parents if p.get("k") == "if"]
@@ -217,8 +223,8 @@ def merge_shape(ctx, res, rule):
 
 
 def squash_rule(ctx, res, rule):
-    """IV: a pending range is omitted only if it lies wholly inside the ready range, and one that lies strictly inside
-    is omitted - complete table over the weak orderings of the four endpoints (one iteration of the merge loop)."""
+    """IV: a pending range is omitted exactly when it lies wholly inside the ready range (start >= start, end <= end) -
+    complete table over the weak orderings of the four endpoints (one iteration of the merge loop)."""
     import itertools
     P = ctx.lib
     b = P.fn("Remover::build_remove_marker_all")
@@ -304,9 +310,8 @@ def squash_rule(ctx, res, rule):
         listed = len(merged.items) == 1
         if not consumed:
             continue                      # pending lies behind the ready range: handled in a later iteration
-        inside = rs <= ps and pe <= re_
-        strictly_inside = rs <= ps and pe < re_
-        if (not listed and not inside) or (listed and strictly_inside):
+        inside = rs <= ps and pe <= re_          # wholly inside, including a pending range that ends exactly where the ready one ends
+        if (not listed and not inside) or (listed and inside):
             bad += 1
             first_bad = first_bad or ((rs, re_), (ps, pe), listed)
     res.extra.setdefault("ordering_rows", {})[fn] = rows
